@@ -24,6 +24,8 @@ GNext ==
               Step(ReplyWatch(t, h), [op |-> "reply", t |-> t, how |-> h])
         \/ \E t \in T, w \in 1..WDeliver : Step(Deliver(t), [op |-> "deliver", t |-> t])
         \/ \E t \in T, kd \in WKinds : Step(WEvent(t, kd), [op |-> "wev", t |-> t, kind |-> kd])
+        \/ Step(EnvOK /\ Hold /\ Tick, [op |-> "hold"])
+        \/ Step(EnvOK /\ Release /\ Tick, [op |-> "release"])
 
 GView == vars
 EmitEdge == (hist' # hist) => PrintT("BEH " \o ToJson(hist'))
